@@ -73,8 +73,97 @@ func doJob(job JobCfg, fmts []string, facts, oracle bool) Result {
 	}
 	if oracle {
 		runOracles(job, &res)
+		checkWriter(job, &res)
 	}
 	return res
+}
+
+// probeWriter records how the library uses the writer it was given.
+type probeWriter struct {
+	calls  int
+	data   []byte
+	failAt int // fail (short write) once this many bytes have been accepted; < 0: never
+}
+
+func (p *probeWriter) Write(b []byte) (int, error) {
+	p.calls++
+	if p.failAt >= 0 && len(p.data)+len(b) > p.failAt {
+		n := p.failAt - len(p.data)
+		if n < 0 {
+			n = 0
+		}
+		p.data = append(p.data, b[:n]...)
+		return n, fmt.Errorf("probe writer: full after %d bytes", p.failAt)
+	}
+	p.data = append(p.data, b...)
+	return len(b), nil
+}
+
+// checkWriter is the library half of the C17 oracle: on success the complete file reaches the
+// writer in exactly one Write; on failure nothing does; a writer that fails after b bytes makes
+// Mock fail, having seen one Write of the complete text and nothing else.
+func checkWriter(job JobCfg, res *Result) {
+	defer func() {
+		if r := recover(); r != nil {
+			res.Checks["oracle-panic"] = fmt.Sprintf("%v\n%s", r, debug.Stack())
+		}
+	}()
+	def, ok := res.Runs[""]
+	if !ok || def.Panic != "" || def.Stage == "new" {
+		return
+	}
+	mock := func(w *probeWriter) (err error, panicked bool) {
+		defer func() {
+			if r := recover(); r != nil {
+				panicked = true
+			}
+		}()
+		m, e := moq.New(moq.Config{SrcDir: job.Dir, PkgName: job.PkgName, StubImpl: job.StubImpl,
+			SkipEnsure: job.SkipEnsure, WithResets: job.WithResets})
+		if e != nil {
+			return e, false
+		}
+		return m.Mock(w, job.Args...), false
+	}
+	w := &probeWriter{failAt: -1}
+	err, pan := mock(w)
+	if pan {
+		return
+	}
+	if err != nil {
+		if w.calls != 0 || len(w.data) != 0 {
+			res.Checks["C17"] = fmt.Sprintf("Mock failed (%v) after writing %d bytes in %d Write calls", err, len(w.data), w.calls)
+		}
+		return
+	}
+	if w.calls != 1 {
+		res.Checks["C17"] = fmt.Sprintf("Mock succeeded with %d Write calls, expected exactly one", w.calls)
+		return
+	}
+	full := string(w.data)
+	if def.Err == "" && full != def.Out {
+		// a different generation: C14's business unless it repeats
+		return
+	}
+	for _, b := range []int{0, len(full) / 2} {
+		if b < 0 || b >= len(full) {
+			continue
+		}
+		fw := &probeWriter{failAt: b}
+		err, pan := mock(fw)
+		if pan {
+			return
+		}
+		if err == nil {
+			res.Checks["C17"] = fmt.Sprintf("writer failed after %d bytes but Mock reported success", b)
+			return
+		}
+		if fw.calls != 1 || !strings.HasPrefix(full, string(fw.data)) {
+			res.Checks["C17"] = fmt.Sprintf("writer failing after %d bytes saw %d Write calls / bytes that are not a prefix of the file", b, fw.calls)
+			return
+		}
+	}
+	res.Checks["C17-writer-ok"] = ""
 }
 
 func workerMain() {
@@ -150,8 +239,14 @@ func runOracles(job JobCfg, res *Result) {
 		if d := checkFieldNames(c, job); d != "" {
 			res.Checks["C13"] = d
 		}
-		if d := checkSolo(job, c); d != "" && res.Checks["C20"] == "" {
+		d, own := checkSolo(job, c)
+		if d != "" && res.Checks["C20"] == "" {
 			res.Checks["C20"] = d
+		}
+		for k, v := range own {
+			if res.Checks[k] == "" {
+				res.Checks[k] = v
+			}
 		}
 	}
 	if noop, ok := res.Runs["noop"]; ok && noop.Err == "" && noop.Panic == "" {
